@@ -19,6 +19,6 @@ Separate Extraction
   Eval.read_full Eval.pyeval
   Parse.parse_model Parse.read_opts
   Cli.cli_kwargs Cli.validate_scope Cli.target_file_name
-  Paths.relative_path Paths.norm_join Paths.common_prefix_all Paths.include_directive_text Paths.directive_name
+  Paths.relative_path Paths.norm_join Paths.common_prefix_all Paths.include_directive_text Paths.directive_name Paths.sd_include
   Xml.xml_parse Xml.populate.
 Cd "../../coq".
